@@ -81,7 +81,7 @@ def run_tlc(cfg, module, workers, metadir, env_extra, timeout, extra=()):
     return p.returncode, p.stdout, time.time() - t0
 
 
-MSG = re.compile(r'^"@@ (FAIL|CONF|DRIFT|KNOWN|ACCEPTED|STUCK)\b ?(.*)"$')
+MSG = re.compile(r'^"@@ (FAIL|CONF|DRIFT|KNOWN|ACCEPTED|STUCK|COUNTS)\b ?(.*)"$')
 
 
 def unq(s):
@@ -90,7 +90,7 @@ def unq(s):
 
 def parse_trace_output(out):
     res = {"fail": [], "conf": [], "drift": [], "known": [], "accepted": None, "stuck": None, "states": 0,
-           "error": None}
+           "error": None, "counts": {}}
     for line in out.splitlines():
         m = MSG.match(line.strip())
         if m:
@@ -112,6 +112,11 @@ def parse_trace_output(out):
                 res["accepted"] = int(re.search(r"events=(\d+)", rest).group(1))
             elif kind == "STUCK":
                 res["stuck"] = rest
+            elif kind == "COUNTS":
+                try:
+                    res["counts"] = json.loads(rest)
+                except Exception:
+                    pass
             continue
         m = re.match(r"(\d+) states generated, (\d+) distinct states found", line)
         if m:
@@ -238,7 +243,7 @@ def do_check(pid, tier, seed):
     jobs = []
     for di, d in enumerate(tp["drivers"]):
         for sh in range(d.get("shards", 1)):
-            path = os.path.join(wd, "trace-%s-%d.ndjson" % (d["name"], sh))
+            path = os.path.join(wd, "trace-%d-%s-%d.ndjson" % (di, d["name"], sh))
             if d["name"] == "sweep":
                 cmd = [HARNESS, "sweep", "--out", path] + [str(x) for x in d.get("args", [])]
             else:
@@ -297,6 +302,7 @@ def do_check(pid, tier, seed):
         results = list(ex.map(validate, jobs))
 
     known_hits = []
+    counts = {}
     foreign = 0
     events = 0
     trace_states = 0
@@ -306,6 +312,8 @@ def do_check(pid, tier, seed):
         events += res["accepted"]
         trace_states += res["states"]
         drift += len(res["drift"])
+        for k_, v_ in res["counts"].items():
+            counts[k_] = counts.get(k_, 0) + v_
         viol, kn, fo = classify(pid, res, known)
         foreign += fo
         for (l, text) in kn:
@@ -438,6 +446,8 @@ def do_check(pid, tier, seed):
                 jobs.append((None, tr, "C11X"))
                 path3, res3, _ = validate((None, tr, "C11X"))
                 events += res3["accepted"]
+                for k_, v_ in res3["counts"].items():
+                    counts[k_] = counts.get(k_, 0) + v_
                 trace_states += res3["states"]
                 drift += len(res3["drift"])
                 viol3, kn3, fo3 = classify(pid, res3, known)
@@ -457,6 +467,11 @@ def do_check(pid, tier, seed):
                         f.write("\n".join(ep) + "\n")
                         f.write(json.dumps({"ev": "verdict", "property": pid, "event": len(ep), "text": text}) + "\n")
                     violations.append((rpf, "state enumerated by TLC (%s): %s" % (m["cfg"], text)))
+
+    # ---- 3b. vacuity guard: the predicates this property depends on must actually have been evaluated
+    for tag, least in plan.get("requires", {}).items():
+        if counts.get(tag, 0) < least:
+            raise ToolError("vacuous run: %s evaluated %d times (< %d)" % (tag, counts.get(tag, 0), least))
 
     # ---- 4. verdict + evidence
     for (path, l, text) in known_hits[:1] if False else []:
@@ -500,6 +515,7 @@ def do_check(pid, tier, seed):
             "trace_spec_states": trace_states,
             "episodes": episodes,
             "drivers": [dict(g) for g in gen_stats],
+            "predicate_evaluations": dict(sorted(counts.items())),
             "drift_events": drift,
             "foreign_alarms": foreign,
             "known_finding_hits": len(known_hits),
